@@ -86,7 +86,7 @@ def merge_streams(outs):
 
 # per property: Lean modules holding its theorems, the streams it runs, the oracle it reads
 SPECS = {
-    "C01": dict(modules=["Ovldverif.Props.C01"], streams=["fn", "fn_rich", "dep_f"], oracle="C01"),
+    "C01": dict(modules=["Ovldverif.Props.C01"], streams=["fn", "fn_rich", "dep_f", "rewrite"], oracle="C01"),
     "C10": dict(modules=["Ovldverif.Props.C10"], streams=["dep_e", "dep_f", "dep_lit"], oracle="C10"),
     "C11": dict(modules=["Ovldverif.Props.C11"], streams=["dep_e", "dep_f", "dep_lit"], oracle="C11"),
     "C02": dict(modules=["Ovldverif.Props.C02"], streams=["table_static", "fn_static", "levels"], oracle="C02"),
@@ -95,9 +95,10 @@ SPECS = {
     "C05": dict(modules=["Ovldverif.Props.C05"], streams=["table_static", "table_rich", "fn"], oracle="C05"),
     "C06": dict(modules=["Ovldverif.Props.C06"], streams=["table_static", "fn_static", "levels", "levels_rich"], oracle="C06"),
     "C07": dict(modules=["Ovldverif.Props.C07"], streams=["table_static", "fn_static", "levels"], oracle="C07"),
-    "C20": dict(modules=["Ovldverif.Props.C20"], streams=["table_rich", "fn"], oracle="C20"),
+    "C20": dict(modules=["Ovldverif.Props.C20"], streams=["table_rich", "fn", "dep_f"], oracle="C20"),
     "C09": dict(modules=["Ovldverif.Props.C09"], streams=["rewrite", "rewrite_struct"], oracle="C09"),
     "C16": dict(modules=["Ovldverif.Props.C16"], streams=["graph"], oracle="C16"),
+    "C18": dict(modules=["Ovldverif.Props.C18"], streams=["build"], oracle="C18"),
     "C08": dict(modules=["Ovldverif.Props.C08"], streams=["graph", "graph_deep"], oracle="C08"),
 }
 
@@ -114,8 +115,9 @@ STREAMS = {
     "levels_rich": ("corr_c", "worker", lambda seed, n: (seed + 43, n, False), "C"),
     "rewrite": ("check_rewrite", "worker", lambda seed, n: (seed + 47, n, {}), "H"),
     "rewrite_struct": ("corr_h", "worker", lambda seed, n: (seed + 53, 6 * n, {}), "H"),
+    "build": ("check_build", "worker", lambda seed, n: (seed + 59, 2 * n, {}), "I"),
     "graph": ("check_graph", "worker", lambda seed, n: (seed + 19, n, {}), "G"),
-    "graph_deep": ("check_graph", "worker", lambda seed, n: (seed + 23, n, {"nnodes": 6}), "G"),
+    "graph_deep": ("check_graph", "worker", lambda seed, n: (seed + 23, n, {"nnodes": 6, "recurse_bias": 0.6}), "G"),
 }
 
 
@@ -141,6 +143,15 @@ def run_generic(prop, tier, seed, t0):
         if extra:
             corr_keep = tot["corr"]
             tot = merge_streams([tot, extra])
+            tot["corr"] = corr_keep
+    dd = [c for c in tot["corr"] if c.get("layer") == "D"]
+    if dd and not tot["oracles"].get(spec["oracle"], {}).get("viol"):
+        import check_table
+
+        extra = check_table.directed_from_table(dd)
+        if extra:
+            corr_keep = tot["corr"]
+            tot = merge_streams([tot] + extra)
             tot["corr"] = corr_keep
     oc = tot["oracles"].get(spec["oracle"], {"n": 0, "nontrivial": 0, "viol": [], "known": {}})
     known = fw.load_known(prop)
